@@ -181,22 +181,29 @@ def main(args):
             prop = m.get('expect', m['property'])
             props_to_try = prop if isinstance(prop, list) else [prop]
             detected = False
+            fp = []
+            per_prop = {}
             for pr in props_to_try:
                 rc, out = run_check(scratch, pr)
-                if rc == 1 and 'VIOLATION property=' + pr in out:
+                hit = rc == 1 and 'VIOLATION property=' + pr in out
+                per_prop[pr] = hit
+                if hit:
                     detected = True
-                    fp = [l for l in out.splitlines() if 'fingerprint:' in l]
-                    break
+                    fp += [pr + ' ' + l.strip() for l in out.splitlines()
+                           if 'fingerprint:' in l][:1]
             status = 'DETECTED' if detected else 'MISSED'
+            if len(per_prop) > 1:
+                status += ' ' + ','.join('{}={}'.format(k, 'yes' if v else 'no')
+                                         for k, v in per_prop.items())
             if not detected and not m.get('known_miss'):
                 bad += 1
             print('{:40s} {}  {}  ({:.0f}s) {}'.format(
                 m['id'], m['property'], status, time.time() - t0,
-                fp[0].strip() if detected and fp else
+                ' | '.join(fp) if detected and fp else
                 ('rc=%d' % rc) + (' [known miss]' if m.get('known_miss') else '')))
             sys.stdout.flush()
             results.append({'id': m['id'], 'property': m['property'],
-                            'status': status})
+                            'status': status, 'fingerprints': fp})
         finally:
             shutil.rmtree(scratch, ignore_errors=True)
     with open(os.path.join(VERIF, 'evidence', 'sensitivity.json'), 'w') as f:
